@@ -356,7 +356,17 @@ func (r *resolver) Resolve(ctx context.Context, vk resolve.VersionKey) (*resolve
 				if r.protected(parent.parent, node.pkg, alias) {
 					break
 				}
-				parent.protected[node.pkg] = true
+				// The level is passed on the way up: reserve the name the
+				// new node is installed under, so that nothing installed
+				// here later shadows it.
+				if alias != "" {
+					if parent.aliasProtected == nil {
+						parent.aliasProtected = make(map[string]bool)
+					}
+					parent.aliasProtected[alias] = true
+				} else {
+					parent.protected[node.pkg] = true
+				}
 				parent = parent.parent
 			}
 			// If the parent and the installed version are from the same
